@@ -91,4 +91,9 @@ theorem splitDot_sum_length (s : Bytes) :
       rw [e1] at ih
       rw [e2, List.count_cons_of_ne hb]; simp at ih ⊢; omega
 
+theorem count_dot_of_all_isDigit {x : Bytes} (h : x.all isDigit = true) : x.count dot = 0 := by
+  rw [List.count_eq_zero]
+  intro hm
+  exact ne_dot_of_isDigit (List.all_eq_true.mp h _ hm) rfl
+
 end MW.Dec
